@@ -208,6 +208,30 @@ def loop_adjust():
 PRELUDE2 = "int jpv_t, jpv_t2; const void *jpv_h; int jpv_cnt;\n"
 
 
+VISIT = ("static void jpv_visit(const void *p) {\n"
+         "  if (jpv_f >= 0 && __CPROVER_same_object(p, jpv_from) && (size_t)__CPROVER_POINTER_OFFSET(p) == (size_t)jpv_f * sizeof(wkdibe_Attribute) + __builtin_offsetof(wkdibe_Attribute, id)) jpv_vis_f = 1;\n"
+         "  if (jpv_t >= 0 && __CPROVER_same_object(p, jpv_to) && (size_t)__CPROVER_POINTER_OFFSET(p) == (size_t)jpv_t * sizeof(wkdibe_Attribute) + __builtin_offsetof(wkdibe_Attribute, id)) jpv_vis_t = 1;\n}\n")
+PRELUDE3 = "int jpv_t, jpv_f; const void *jpv_from, *jpv_to; _Bool jpv_vis_t, jpv_vis_f;\n"
+
+
+def c_adjust_pre():
+    pre = [fresh("precomputed"), fresh("params"), fresh("from"), fresh("to"), "from->length <= (size_t)1073741823", "to->length <= (size_t)1073741823",
+           "__CPROVER_is_fresh(from->attrs, from->length * sizeof(*from->attrs))", "__CPROVER_is_fresh(to->attrs, to->length * sizeof(*to->attrs))",
+           "jpv_from == from->attrs", "jpv_to == to->attrs", "jpv_vis_t == 0 && jpv_vis_f == 0"]
+    post = ["(0 <= jpv_t && (size_t)jpv_t < to->length) ==> jpv_vis_t", "(0 <= jpv_f && (size_t)jpv_f < from->length) ==> jpv_vis_f"]
+    return req(*pre) + assigns("*precomputed", "jpv_vis_t", "jpv_vis_f") + ens(*post)
+
+
+def loop_adjust_pre():
+    inv = ["0 <= i && (size_t)i <= from->length", "0 <= j && (size_t)j <= to->length",
+           "(0 <= jpv_t && jpv_t < j) ==> jpv_vis_t", "(0 <= jpv_f && jpv_f < i) ==> jpv_vis_f"]
+    mk = lambda tg, dec: ("__CPROVER_assigns(%s, __CPROVER_object_whole(&temp), __CPROVER_object_whole(&diff), precomputed->prodexp, jpv_vis_t, jpv_vis_f)\n" % tg +
+                          "".join("__CPROVER_loop_invariant(%s)\n" % v for v in inv) + "__CPROVER_decreases(%s)\n" % dec)
+    tot = "(from->length - (size_t)i) + (to->length - (size_t)j)"
+    # the second loop advances only i, the third only j (so what the first two established about the other cursor survives)
+    return {1: mk("i, j", tot), 2: mk("i", "from->length - (size_t)i"), 3: mk("j", "to->length - (size_t)j")}
+
+
 def c_precompute():
     pre = [fresh("precomputed"), fresh("params"), fresh("attrs"), "attrs->length <= (size_t)2147483647", "__CPROVER_is_fresh(attrs->attrs, attrs->length * sizeof(*attrs->attrs))",
            "jpv_h == attrs->attrs", "jpv_cnt == 0", "0 <= jpv_t"]
@@ -246,6 +270,9 @@ def units():
     for q, c, lc, can, extra_stub in (("wkdibe::setup", c_setup(), loop_setup(), ("params->l == l", "params->l == l + 1"), {"G1::random_generator": REC}),
                                       ("wkdibe::resamplekey", c_resample(), loop_resample(), ("(resampled->l == sk->l)", "(resampled->l == sk->l + 1)"), None),
                                       ("wkdibe::adjust_nondelegable", c_adjust(), loop_adjust(), ("sk->l <= parent->l", "sk->l < parent->l"), None),
+                                      ("wkdibe::adjust_precomputed", c_adjust_pre(), loop_adjust_pre(), ("jpv_vis_t", "!jpv_vis_t"),
+                                       {"G1::multiply(const G1 &, const BigInt<256> &)": "{ jpv_visit($1); }", "BigInt<256>::equal": "{ jpv_visit($0); jpv_visit($1); _Bool jpv_nd; return jpv_nd; }",
+                                        "BigInt<256>::subtract": "{ _Bool jpv_nd; return jpv_nd; }"}),
                                       ("wkdibe::precompute", c_precompute(), loop_precompute(), ("jpv_cnt == 1", "jpv_cnt == 2"),
                                        {"G1::multiply(const G1 &, const BigInt<256> &)": "{ if (__CPROVER_same_object($1, jpv_h) && (size_t)__CPROVER_POINTER_OFFSET($1) == (size_t)jpv_t * sizeof(wkdibe_Attribute) + __builtin_offsetof(wkdibe_Attribute, id)) jpv_cnt++; }"})):
         u = BVUnit(q, {q: c}, P, unwind=12, loop_contracts={q: lc}, timeout=900, spec_prelude=PRELUDE2,
@@ -253,6 +280,13 @@ def units():
                    note="loop contracts on the slot loop(s), counts symbolic; every group / sampling callee is a no-op stub (only the integer side is under contract here)")
         u.stub_factory = (lambda tu, e=extra_stub: more_stubs(tu, e))
         u.harness_pre = HAVOC
+        if q == "wkdibe::adjust_precomputed":
+            u.props = ["C14", "C12", "C17"]
+            u.label = "wkdibe::adjust_precomputed: every entry of both lists, of any length, is consumed (loop contracts)"
+            u.spec_prelude = PRELUDE3 + VISIT
+            u.harness_pre = "  { int jpv_n1, jpv_n2; jpv_t = jpv_n1; jpv_f = jpv_n2; }\n"
+            u.checks = False
+            u.extra = list(u.extra) + ["--bounds-check", "--pointer-check", "--signed-overflow-check"]
         if q == "wkdibe::precompute":
             u.props = ["C14", "C12", "C13", "C17"]
             u.label = "wkdibe::precompute: every attribute of a list of any length contributes exactly once (loop contract)"
